@@ -198,14 +198,12 @@ Theorem unary_dispatch_is_expected :
      match o with
      | UNot => Some (GCall M_not F_exec false)
      | UUnaryMinus => Some (GCall M_unary_minus F_exec false)
-     | USum => Some (GCall M_sum F_exec true)
-     | UProduct => Some (GCall M_product F_exec true)
      | UReturn => Some GReturn
      | UIndirection => Some (GCall M_indirection F_exec false)
      | UFunctionCall => Some GCallFunction
      | UCollect => Some (GCall M_collect F_exec true)
      | UIter => Some (GCall M_iter F_exec false)
-     | UAll | UAny | UBitAnd | UBitOr => Some GUnreachable
+     | USum | UProduct | UAll | UAny | UBitAnd | UBitOr => Some GUnreachable
      end)
   /\ (forall o, lookup_arm unop_beq o gen_unary_recreate_dispatch gen_unary_recreate_dispatch_default =
      match o with
